@@ -353,6 +353,31 @@ def r1_reserved_name(repo, report):
                 names = {k.id for k in ast.walk(x.test) if isinstance(k, ast.Name)}
                 guards.append({"test": src(x.test)[:160], "covers_r1": bool(n1 & names) and len(n1) == 1, "covers_r2": n2 in names})
     ok = any(g["covers_r1"] and g["covers_r2"] for g in guards)
+    # what the guard really tests, per demultiplexing mode (operator precedence, conditions on the mode): explored
+    if ok:
+        gnode = [x for x in ast.walk(m) if isinstance(x, ast.If) and x.lineno < first and any(isinstance(k, ast.Constant) and k.value == "unknown" for k in ast.walk(x.test))
+                 and any(isinstance(r_, ast.Raise) for r_ in x.body)][0]
+        modevars = sorted({k.id for k in ast.walk(gnode.test) if isinstance(k, ast.Name)} - n1 - {n2})
+        env_ = {nm: Obj("MODE") for nm in modevars}
+        env_[next(iter(n1))] = Obj("N1", nonnull=True)
+        env_[n2] = Obj("N2", nonnull=True)
+        try:
+            rows_ = explore(repo, [gnode], env_, inline=False)
+        except Unrecognised as u:
+            rows_ = None
+            report.unrecognised("C15.R1", "reserved-name guard per mode", u.what, repo.loc(gnode))
+        if rows_ is not None:
+            bad_ = []
+            for r in rows_:
+                if r.valuation.get("truthy:MODE") is not True:
+                    continue
+                comb = r.valuation.get("eq:MODE:'combinatorial'")
+                tested = [k.split(":", 2)[2] for k in r.valuation if k.startswith("in:'unknown':")]
+                need = ["N1", "N2"] if comb else ["N1"]
+                if not tested or not all(any(nm in t for t in tested) for nm in need):
+                    bad_.append({"mode": "combinatorial" if comb else "normal", "lists_tested": tested, "needed": need})
+            guards.append({"per_mode_problems": bad_[:2]})
+            ok = ok and not bad_
     report.ob("C15.R1", "builder refuses the adapter name 'unknown' when demultiplexing", ok, facts={"guards": guards[:2], "names_r1": sorted(n1), "names_r2": n2}, loc=repo.loc(m),
               expected="if <demultiplexing> and 'unknown' in <adapter names (R2 names too for {name1}/{name2})>: raise CommandLineError(...) before a demultiplexer is built",
               why="" if ok else "an adapter named 'unknown' shares the output file of the reads without adapter: the file is opened twice and one of the two groups is lost, although the report counts all reads as written")
